@@ -62,6 +62,8 @@ def _run(spec):
 
             with open(spec["load_models"], "rb") as fh:
                 model = pickle.load(fh)      # the trained models of an earlier run (documented: brew(model=[...]))
+        elif spec.get("default_model"):
+            model = None                      # brew's own default model, seeded only through brew(rng=...)
         elif spec.get("percolator"):
             model = mokapot.PercolatorModel(train_fdr=spec.get("train_fdr", 0.05), max_iter=spec.get("max_iter", 2), rng=seed)
         else:
